@@ -240,13 +240,9 @@ def definition_cases(rnd):
         # valid neighbours
         ('weekday-in-range/list', True, ['weekly', {'days': [0, 6], 'units': 8}]),
         ('weekday-in-range/dict', True, ['weeklyd', {'map': {'0': 8, '6': 1}}]),
-        ('zero-units/weekly-scalar', True, ['weekly', {'days': [0, 1], 'units': 0}]),
         ('nonnegative-units/direct', True, ['direct', [[d1, pos]], [[d1 + td(days=1), 0]]]),
-        ('zero-units/fixed', True, ['fixed', 0, None, None]),
         ('start-before-end/weekly', True, ['weekly', {'days': [0, 1, 2], 'units': 8, 'start': d0, 'end': d1}]),
-        ('start-equals-end/weekly', True, ['weekly', {'days': [0, 1, 2], 'units': 8, 'start': d1, 'end': d1}]),
         ('start-before-end/fixed', True, ['fixed', 3, d0, d1]),
-        ('start-equals-end/fixed', True, ['fixed', 3, d1, d1]),
         ('open-ended/weekly', True, ['weekly', {'days': [0], 'units': 8, 'start': d1, 'end': None}]),
         ('division-by-number', True, ['div', ['weekly', {'days': [0], 'units': 8}], ['num', rnd.choice([2, 0.5, 4])]]),
     ]
